@@ -868,28 +868,28 @@ func Check(propID, tier string) int {
 		"distinct_nontrivial": distinct,
 		"rule": info.Rule + " Distinct = distinct FNV-1a hashes of the executor's event log among runs in which at least one reach probe fired" +
 			map[bool]string{true: " (per-worker hash set was capped, so this is a lower bound)", false: ""}[merged.HashCapped] + ".",
-		"samples":                 samples,
-		"exhaustive":              false,
+		"samples":                  samples,
+		"exhaustive":               false,
 		"exhaustive_subspace_runs": merged.SweepRuns,
-		"random_runs":             merged.Runs - merged.SweepRuns,
-		"fault_free_runs":         merged.FaultFree,
-		"faulted_runs":            merged.Runs - merged.FaultFree,
-		"probed_runs":             merged.ProbedRuns,
-		"runs_per_hour":           int64(float64(merged.Runs) / wall * 3600),
-		"seeds_per_hour":          int64(float64(merged.Runs-merged.SweepRuns) / wall * 3600),
-		"workers":                 nw,
-		"faults_fired":            merged.Stats.Faults,
-		"probes":                  merged.Stats.Probes,
-		"units":                   merged.Stats.Units,
-		"simulated_time":          simTime(info, merged.Stats),
-		"real_components":         info.Real,
-		"stub_components":         info.Stub,
-		"known_findings_seen":     knownSeen,
-		"violating_runs":          merged.ViolRuns,
-		"truncated_by_wall_clock": merged.Truncated,
-		"gots_tree_id":            tree,
-		"missing_required_probes": missing,
-		"technique":               "deterministic simulation with fault injection: seed -> explicit script -> pure executor over real gots code -> oracle -> minimised replay file",
+		"random_runs":              merged.Runs - merged.SweepRuns,
+		"fault_free_runs":          merged.FaultFree,
+		"faulted_runs":             merged.Runs - merged.FaultFree,
+		"probed_runs":              merged.ProbedRuns,
+		"runs_per_hour":            int64(float64(merged.Runs) / wall * 3600),
+		"seeds_per_hour":           int64(float64(merged.Runs-merged.SweepRuns) / wall * 3600),
+		"workers":                  nw,
+		"faults_fired":             merged.Stats.Faults,
+		"probes":                   merged.Stats.Probes,
+		"units":                    merged.Stats.Units,
+		"simulated_time":           simTime(info, merged.Stats),
+		"real_components":          info.Real,
+		"stub_components":          info.Stub,
+		"known_findings_seen":      knownSeen,
+		"violating_runs":           merged.ViolRuns,
+		"truncated_by_wall_clock":  merged.Truncated,
+		"gots_tree_id":             tree,
+		"missing_required_probes":  missing,
+		"technique":                "deterministic simulation with fault injection: seed -> explicit script -> pure executor over real gots code -> oracle -> minimised replay file",
 	}
 	ev := Evidence{PropertyID: propID, Tier: tier, Seed: int64(seed), Level: "exploration", Coverage: cov,
 		Assumptions: info.Assumptions, WallS: wall, Violations: unknown}
